@@ -328,6 +328,54 @@ class C04(Prop):
             if any(e.context for e in errs1):
                 res.labels.append("invalid+context")
                 res.nontrivial = True
+        # ---- the caller edits the schema object between two calls: each call judges the schema as it is NOW
+        if isinstance(s, dict) and xs:
+            sobj = copy.deepcopy(s)
+            x0 = copy.deepcopy(xs[0])
+            where = sobj
+            for k in ("properties", "definitions"):
+                if isinstance(sobj.get(k), dict) and sobj[k] and case["instances"] and isinstance(case["instances"][0], dict):
+                    first = sorted(sobj[k])[0]
+                    if isinstance(sobj[k][first], dict):
+                        where = sobj[k][first]          # a nested edit
+                        break
+
+            def mv():
+                try:
+                    js.validate(copy.deepcopy(x0), sobj, format_checker=fc, **kw)
+                    return "ok"
+                except impl.exceptions.SchemaError:
+                    return "SchemaError"
+                except impl.exceptions.ValidationError:
+                    return "ValidationError"
+                except Exception as e:
+                    return "raises:" + impl.tname(e)
+
+            def cs():
+                try:
+                    cls.check_schema(sobj)
+                    return True
+                except impl.exceptions.SchemaError:
+                    return False
+                except Exception:
+                    return None
+            before = mv()
+            saved = where.get("type", Untouchable)
+            where["type"] = 12                           # no draft lets a number be a type
+            during, cs_during = mv(), cs()
+            if saved is Untouchable:
+                del where["type"]
+            else:
+                where["type"] = saved
+            after = mv()
+            res.evals += 3
+            res.labels.append("edited-in-place")
+            if cs_during is False and during != "SchemaError":
+                res.fail(("module-validate", "schema-edited-in-place-not-rechecked"),
+                         "validate() on the same schema object after an in-place edit made it invalid (check_schema: "
+                         "SchemaError): %s; before the edit: %s" % (during, before))
+            if after != before:
+                res.fail(("module-validate", "edit-undone-but-outcome-differs"), "before %s, after undoing the edit %s" % (before, after))
         return res
 
     def focus(self, case, bucket):
